@@ -242,8 +242,15 @@ theorem declareSort_ok {U : Universe} {w : W O} (hI : Inv U w) (d : SortDecl) (h
     simp only [levelsOf] at this
     simp [legal, hI.notExited, hI.logic, this]
   refine ⟨silentState w (.declareSort d) w.vars (addTop d w.sorts) w.pendingPop, ?_, ?_, rfl, rfl, rfl⟩
-  · show (sendSilent (.declareSort d) >>= fun _ => M.modify fun w => { w with sorts := addTop d w.sorts }) w = _
-    rw [M.bind_ok (sendSilent_strict w _ hI.queue hl (by simp) (by simp))]
+  · have hne : w.sorts.isEmpty = false := by
+      rw [hI.sorts]; cases h : levelsOf w with
+      | nil => exact absurd h hI.nonempty
+      | cons _ _ => rfl
+    show (sendSilent (.declareSort d) >>= fun _ => M.get >>= fun w0 =>
+      if w0.sorts.isEmpty then M.throw .indexError
+      else M.modify fun w => { w with sorts := addTop d w.sorts }) w = _
+    rw [M.bind_ok (sendSilent_strict w _ hI.queue hl (by simp) (by simp)), M.bind_ok (M.run_get _)]
+    simp only [hne, Bool.false_eq_true, if_false]
     rfl
   · refine hI.afterSilent (.declareSort d) hl (by simp) (by simp) (by simp) _ _ _ ?_ ?_ ?_ ?_ ?_ ?_
     · simp only [next, map_syms_addSort]; exact hI.vars
@@ -268,8 +275,15 @@ theorem declareVar_ok {U : Universe} {w : W O} (hI : Inv U w) (s : Sym) (hs : U.
     simp only [legal, hI.notExited, hI.logic, this, Bool.not_false, Bool.true_and, List.all_eq_true]
     exact hu
   refine ⟨silentState w (.declareFun s) (addTop s w.vars) w.sorts w.pendingPop, ?_, ?_, rfl, rfl, rfl⟩
-  · show (sendSilent (.declareFun s) >>= fun _ => M.modify fun w => { w with vars := addTop s w.vars }) w = _
-    rw [M.bind_ok (sendSilent_strict w _ hI.queue hl (by simp) (by simp))]
+  · have hne : w.vars.isEmpty = false := by
+      rw [hI.vars]; cases h : levelsOf w with
+      | nil => exact absurd h hI.nonempty
+      | cons _ _ => rfl
+    show (sendSilent (.declareFun s) >>= fun _ => M.get >>= fun w0 =>
+      if w0.vars.isEmpty then M.throw .indexError
+      else M.modify fun w => { w with vars := addTop s w.vars }) w = _
+    rw [M.bind_ok (sendSilent_strict w _ hI.queue hl (by simp) (by simp)), M.bind_ok (M.run_get _)]
+    simp only [hne, Bool.false_eq_true, if_false]
     rfl
   · refine hI.afterSilent (.declareFun s) hl (by simp) (by simp) (by simp) _ _ _ ?_ ?_ ?_ ?_ ?_ ?_
     · simp only [next, map_syms_addSym]; rw [hI.vars]
@@ -393,6 +407,15 @@ theorem Inv.setPending {U : Universe} {w : W O} (hI : Inv U w) (b : Bool) (hb : 
     sorts := hI.sorts, nonempty := hI.nonempty, pending := hb, accepted := hI.accepted, usyms := hI.usyms,
     usorts := hI.usorts }
 
+theorem popLevels_ok : ∀ (n : Nat) (v : List (List Sym)) (s : List (List SortDecl)), n ≤ v.length → n ≤ s.length →
+    popLevels n v s = ((v.drop n, s.drop n), true)
+  | 0, _, _, _, _ => rfl
+  | _ + 1, [], _, h, _ => by simp at h
+  | _ + 1, _ :: _, [], _, h => by simp at h
+  | n + 1, _ :: v, _ :: s, hv, hs => by
+    simp only [popLevels, List.drop_succ_cons]
+    exact popLevels_ok n v s (by simpa using hv) (by simpa using hs)
+
 theorem pushBody_ok {U : Universe} {w : W O} (hI : Inv U w) (n : Nat) :
     ∃ w', pushBody n w = (w', .ok ()) ∧ Inv U w' ∧ w'.pendingPop = w.pendingPop ∧
       levelsOf w' = List.replicate n ({} : Level) ++ levelsOf w ∧ w'.chan.solver.2 = w.chan.solver.2 := by
@@ -417,9 +440,14 @@ theorem popBody_ok {U : Universe} {w : W O} (hI : Inv U w) (n : Nat) (hn : n < (
       levelsOf w' = (levelsOf w).drop n ∧ w'.chan.solver.2 = w.chan.solver.2 := by
   have hl : legal w.chan.solver.1 (.pop n) = true := by simp [legal, hI.notExited, hI.logic, hn]
   refine ⟨silentState w (.pop n) (w.vars.drop n) (w.sorts.drop n) w.pendingPop, ?_, ?_, hp, rfl, rfl⟩
-  · show (sendSilent (.pop n) >>= fun _ => M.modify fun w =>
-      { w with vars := w.vars.drop n, sorts := w.sorts.drop n }) w = _
-    rw [M.bind_ok (sendSilent_strict w _ hI.queue hl (by simp) (by simp))]
+  · have hpl : popLevels n w.vars w.sorts = ((w.vars.drop n, w.sorts.drop n), true) :=
+      popLevels_ok n w.vars w.sorts (by rw [hI.vars, List.length_map]; omega) (by rw [hI.sorts, List.length_map]; omega)
+    show (sendSilent (.pop n) >>= fun _ => M.get >>= fun w0 =>
+      M.modify (fun w => { w with vars := (popLevels n w0.vars w0.sorts).1.1, sorts := (popLevels n w0.vars w0.sorts).1.2 })
+        >>= fun _ => if (popLevels n w0.vars w0.sorts).2 then pure () else M.throw .indexError) w = _
+    rw [M.bind_ok (sendSilent_strict w _ hI.queue hl (by simp) (by simp)), M.bind_ok (M.run_get _),
+      M.bind_ok (M.run_modify _ _)]
+    simp only [hpl, if_true]
     rfl
   · refine hI.afterSilent (.pop n) hl (by simp) (by simp) (by simp) _ _ _ ?_ ?_ ?_ ?_ ?_ ?_
     · simp only [next, List.map_drop]; rw [hI.vars]
